@@ -116,7 +116,8 @@ def _run_benign(args):
         ctx, err = run_check(pid, "quick", Program(overlay=ov))
     except Exception as e:
         return name, "error:" + type(e).__name__, 0
-    return name, ("error" if err else "ran"), [(f.rule, f.site, f.construct) for f in ctx.findings]
+    resource = bool(err) and (err.startswith("MemoryError") or err.startswith("timeout"))
+    return name, ("error:resource" if resource else ("error" if err else "ran")), [(f.rule, f.site, f.construct) for f in ctx.findings]
 
 
 def run_benign(ctx, jobs=None):
@@ -146,7 +147,8 @@ def run_benign(ctx, jobs=None):
             bad.append((n, "FALSE ALARM on a behaviour-preserving refactoring: %s" % (new[:2],)))
         elif status.startswith("error"):
             noverdict += 1
-            if want == 0:
+            # running out of the memory / time budget depends on the load of the machine, not on the checker: counted, not a regression
+            if want == 0 and status != "error:resource":
                 bad.append((n, "recorded as silent, now no verdict"))
         else:
             silent += 1
